@@ -90,6 +90,11 @@ func c03Calls() []fsx.Op {
 		{K: "Chtimes", P: c03X, N: 3}, {K: "Chtimes", P: c03X, N: -1}, {K: "Chtimes", P: c03X, N: -2}, {K: "Chtimes", P: c03X, N: -3}, {K: "Chdir", P: c03D2}, {K: "Chdir", P: c03X}, {K: "Readlink", P: c03X}, {K: "EvalSymlinks", P: c03X},
 		// enumerations meeting directories that can be stat'ed but not opened, or opened but not searched
 		{K: "Glob", P: "/w/*/*"}, {K: "Glob", P: "/w/*/d2/*"}, {K: "Glob", P: "/w/d1/*/*"}, {K: "WalkDir", P: "/w"},
+		// creation modes carrying the sticky, setuid and setgid bits: "mode perm &^ umask" is about all twelve bits
+		// (mkdir(2) keeps only the sticky bit of the three, so that is the one asked of it; nothing is written to the
+		// files, a write by an ordinary user clears the setuid bit)
+		{K: "Mkdir", P: c03X, Perm: 0o1777}, {K: "MkdirAll", P: c03X + "/n1/n2", Perm: 0o1755},
+		{K: "OpenWriteClose", P: c03X, Flag: syscall.O_WRONLY | syscall.O_CREAT | syscall.O_EXCL, Perm: 0o4755}, {K: "OpenWriteClose", P: c03X, Flag: syscall.O_RDWR | syscall.O_CREAT, Perm: 0o3666},
 	}
 }
 
